@@ -118,3 +118,18 @@ func runSetters(pat string) {
 		fmt.Printf("%-90s full=%v exposed=%v\n", k, full, exposed)
 	}
 }
+
+// runFluent: verdicts of fluent methods (returning a pointer to their receiver type).
+func runFluent(pat string) {
+	re := regexp.MustCompile(pat)
+	p, err := Load(K1)
+	if err != nil {
+		fmt.Println(err)
+		os.Exit(2)
+	}
+	eff := NewEffects(p)
+	for _, fn := range fluentMethods(p, re) {
+		full, exposed := setterVerdict(eff, fn)
+		fmt.Printf("%-90s full=%v exposed=%v\n", funcKey(fn), full, len(exposed) > 0)
+	}
+}
